@@ -182,6 +182,24 @@ def run_case(b: Batch, cfg, filters, led, tp, _retry=False):
         gen = OpGen(u, r, bias=BIAS, allow_out_ops=cfg.get("out_ops", False))
         why = sess.drain()
         ops = []
+        if cfg.get("link_in_new_dir") and not why:
+            # a directory appears together with a symbolic link to a directory OUTSIDE the tree; later that outside
+            # directory changes.  None of this is inside the watched tree: nobody may report it, filtered or not.
+            outside = os.path.join(u.base, "zz-outside")
+            os.mkdir(outside)
+            newd = os.path.join(sess.root, "zl")
+            os.mkdir(newd)
+            os.symlink(outside, os.path.join(newd, "lnk"))
+            ops.append(["mkdir+symlink", "zl", "zl/lnk -> (outside)"])
+            why = sess.drain()
+            if not why:
+                for i in range(3):
+                    with open(os.path.join(outside, f"o{i}"), "w") as fh:
+                        fh.write("x")
+                os.mkdir(os.path.join(outside, "od"))
+                ops.append(["outside activity"])
+                b.count("link_in_new_dir_cases")
+                why = sess.drain()
         for _ in range(cfg["n_ops"]):
             if why:
                 break
@@ -214,11 +232,15 @@ def run_case(b: Batch, cfg, filters, led, tp, _retry=False):
             return
         sent = os.path.join(sess.root, fsrig.SENT)
         retry = []
-        s0 = [e for e in sess.h0.events if e.src_path != sent]
+        # the new directory and the link arrive as a burst: whether the link's own creation is seen as the kernel's event
+        # (file flavour) or through the walk of the new directory (directory flavour, possibly both) depends on when each
+        # inotify instance gets to it - not a filter effect; what lies BELOW the link is judged
+        own = {os.path.join(sess.root, "zl"), os.path.join(sess.root, "zl", "lnk")} if cfg.get("link_in_new_dir") else set()
+        s0 = [e for e in sess.h0.events if e.src_path != sent and e.src_path not in own]
         for f, col in zip(filters, sess.cols):
             names = sorted(c.__name__ for c in f)
             want = collapse([e for e in s0 if isinstance(e, tuple(f))])
-            got = collapse([e for e in col.events if e.src_path != sent])
+            got = collapse([e for e in col.events if e.src_path != sent and e.src_path not in own])
             b.case()
             b.count("filter_comparisons")
             acc = len(want)
@@ -328,7 +350,7 @@ def run_batch(spec):
                 else:
                     filters.append(frozenset(r.sample(allc, r.randint(3, 6))))
             cfg = {"seed": spec["seed"] * 100003 + spec["j"] * 1009 + n, "recursive": r.random() < 0.75, "full": r.random() < 0.25,
-                   "n_ops": r.randint(8, 22), "n_root": r.randint(1, 5), "n_out": r.randint(2, 4), "out_ops": r.random() < 0.5}
+                   "n_ops": r.randint(8, 22), "n_root": r.randint(1, 5), "n_out": r.randint(2, 4), "out_ops": r.random() < 0.5, "link_in_new_dir": r.random() < 0.3}
             run_case(b, cfg, filters, led, tp)
     elif spec["kind"] == "case1":
         run_case(b, spec["cfg"], [by_names(n) for n in spec["filters"]], led, tp)
